@@ -96,6 +96,10 @@ theorem ask_inert (r : Req) (hk : inertK r.kind = true) :
   mvcgen [ask]
   all_goals (subst_vars; simp_all +zetaDelta [view, step_inert, Thrown.head, Thrown.stuck])
 
+theorem askHook_inert (r : Req) (hk : inertK r.kind = true) :
+    ⦃fun w => ⌜view cfg w = v⌝⦄ askHook r ⦃inertPost cfg v⦄ :=
+  askHook_triple r (ask_inert cfg v r hk) (fun w h => presil_cases (fun w => view cfg w = v) w (fun _ => h))
+
 macro "close_i" : tactic => `(tactic| all_goals (
   (try subst_vars) <;> (try intros) <;>
   first
@@ -106,12 +110,12 @@ macro "close_i" : tactic => `(tactic| all_goals (
 
 theorem askMetric_i (ev : Event) (a s : Nat) (t : Tags) :
     ⦃fun w => ⌜view cfg w = v⌝⦄ askMetric ev a s t ⦃inertPost cfg v⦄ := by
-  mvcgen [askMetric, ask_inert]
+  mvcgen [askMetric, askHook_inert]
   close_i
 
 theorem askLog_i (ev : Event) (a s : Nat) (t : Tags) (ra : Option Int) :
     ⦃fun w => ⌜view cfg w = v⌝⦄ askLog ev a s t ra ⦃inertPost cfg v⦄ := by
-  mvcgen [askLog, ask_inert]
+  mvcgen [askLog, askHook_inert]
   close_i
 
 theorem recordTimeline_i (ev : Event) (a s : Nat) (t : Tags) :
@@ -150,7 +154,7 @@ attribute [local spec] emit_i
 
 theorem callBeforeSleep_i (ctx : BackoffCtx) (d : Nat) :
     ⦃fun w => ⌜view cfg w = v⌝⦄ callBeforeSleep cfg ctx d ⦃inertPost cfg v⦄ := by
-  mvcgen [callBeforeSleep, ask_inert]
+  mvcgen [callBeforeSleep, askHook_inert]
   close_i
 
 theorem budgetConsume_i : ⦃fun w => ⌜view cfg w = v⌝⦄ budgetConsume cfg ⦃inertPost cfg v⦄ := by
@@ -1247,15 +1251,19 @@ theorem ask_pext (r : Req) (hk : K r.kind = true) (hop : isOp r = false) :
     | exact ⟨PExt.trans (by assumption) (PExt.step _ _ _ _ _ _ _ _ hk), Thrown.head _ _ _ _ hop⟩
     | exact ⟨PExt.trans (by assumption) (PExt.step _ _ _ _ _ _ _ _ hk), Thrown.stuck _⟩
 
+theorem askHook_pext (r : Req) (hk : K r.kind = true) (hop : isOp r = false) :
+    ⦃fun w => ⌜PExt K w0 w⌝⦄ askHook r ⦃pextPost K w0⦄ :=
+  askHook_triple r (ask_pext K w0 r hk hop) (fun w h => presil_cases (PExt K w0) w (fun _ => h))
+
 theorem askMetric_pext (hm : K .metric = true) (ev : Event) (a s : Nat) (t : Tags) :
     ⦃fun w => ⌜PExt K w0 w⌝⦄ askMetric ev a s t ⦃pextPost K w0⦄ := by
-  have h := ask_pext K w0 (.metric ev a s t) hm rfl
+  have h := askHook_pext K w0 (.metric ev a s t) hm rfl
   mvcgen [askMetric, h]
   pext_close
 
 theorem askLog_pext (hl : K .log = true) (ev : Event) (a s : Nat) (t : Tags) (ra : Option Int) :
     ⦃fun w => ⌜PExt K w0 w⌝⦄ askLog ev a s t ra ⦃pextPost K w0⦄ := by
-  have h := ask_pext K w0 (.log ev a s t ra) hl rfl
+  have h := askHook_pext K w0 (.log ev a s t ra) hl rfl
   mvcgen [askLog, h]
   pext_close
 
